@@ -27,6 +27,48 @@ theorem C10_commands_partial (c : Cmd) (hc : c.regenerates = false) (w : World) 
     ∃ r' a' b' f', resolve (w.applyLocked u) = .ok r' ∧ r'.conclusion = .success a' b' f' :=
   C10_update_preserves_success_partial w c.modeOf u hnd (Cmd.mode_not_regenerate c hc) hu r hr a b f hs
 
+/-- C09, second sentence: a `check` that does not succeed writes nothing (and only then). -/
+theorem C09_failing_check_writes_nothing (w : World) :
+    Cmd.check.run w = .ok none ↔ ∃ r, resolve w = .ok r ∧ r.hasErrors = true := by
+  unfold Cmd.run
+  cases hr : resolve w with
+  | error e => simp
+  | ok r =>
+    cases he : r.hasErrors with
+    | true => simp [he]
+    | false =>
+      simp only [he, Bool.false_eq_true, if_false]
+      cases Cmd.check.update w <;> simp [he]
+
+/-- C09, first sentence, for the command as a whole: what a successful `check` writes vets
+successfully when loaded `--locked`. -/
+theorem C09_check_run_partial (w w' : World)
+    (hnd : (w.store.exemptions.map (·.1)).Nodup)
+    (h : Cmd.check.run w = .ok (some w')) :
+    ∃ r' a' b' f', resolve w' = .ok r' ∧ r'.conclusion = .success a' b' f' := by
+  unfold Cmd.run at h
+  cases hr : resolve w with
+  | error e => simp [hr] at h
+  | ok r =>
+    rw [hr] at h
+    cases he : r.hasErrors with
+    | true => simp [he] at h
+    | false =>
+      simp only [he, Bool.false_eq_true, if_false] at h
+      cases hu : Cmd.check.update w with
+      | error e => simp [hu] at h
+      | ok u =>
+        simp only [hu, Except.ok.injEq, Option.some.injEq] at h
+        subst h
+        have hsucc : ∃ a b f, r.conclusion = .success a b f := by
+          unfold Report.hasErrors at he
+          cases hc : r.conclusion with
+          | success a b f => exact ⟨a, b, f, rfl⟩
+          | failViolation vs => simp [hc] at he
+          | failVet fs => simp [hc] at he
+        obtain ⟨a, b, f, hs⟩ := hsucc
+        exact C10_commands_partial .check rfl w u hnd hu r hr a b f hs
+
 /-- does the command search for crate `n` in prune mode with exemption pruning on? -/
 def Cmd.prunesExemptionsOf (c : Cmd) (n : Nat) : Bool :=
   (c.modeOf n).search == .preferFreshImports && (c.modeOf n).pruneExemptions
